@@ -223,9 +223,9 @@ def escape(ck, agg):
             n += 1
             fields = {}
             if ident is not None:
-                fields["_id"] = ident
+                fields[net.FN("_id")] = ident
                 if ident == 0:
-                    fields["_addr"] = 0
+                    fields[net.FN("_addr")] = 0
             st, node = nn.fresh(fields=fields)
             fu = P.method(nn.cls, "update")
             it = Interp(P, nn.model, Limits(max_paths=100000, loop_unroll=2, depth=16, concrete_loop=10))
